@@ -18,8 +18,9 @@ def model_level_cases():
     from sfc_models.sector import Sector
     bad = []
     n = 0
-    for T, form, nval, icv in itertools.product((0, 1, 3), ('list', 'tuple', 'str', 'repeat-str'), (1, 2, 4, 6), (7.25, 0.0, -3.0)):
-        vals = [1.5 + 0.25 * i for i in range(nval)]
+    for T, form, nval, icv in itertools.product((0, 1, 3), ('list', 'tuple', 'str', 'repeat-str'), (1, 2, 4, 6), (7.25, 0.0, -3.0, 1 / 3., 0.1 + 0.2, 1e-9, -123456.7890123, 2.5e+17)):
+        # values with short and with long decimal expansions (the API turns them into text on the way to the solver)
+        vals = [1.5 + 0.25 * i + (i % 2) / 3. + (i % 3) * 1e-9 for i in range(nval)]
         m = Model()
         c = Country(m, 'CO')
         s = Sector(c, 'S')
